@@ -586,6 +586,51 @@ func runC11(rc *RunCtx) {
 	rc.Cov.Extra["exhaustive"] = true
 	rc.Cov.Sample(map[string]interface{}{"universe_accounts": U, "state_shape": "(owner, pending|none, attester manager, pauser, token controller)",
 		"actions_per_state": "every role transaction x every submitter x every new holder, accept by every account, one representative of the other 20 types"})
+	// a nominee named in another spelling of its address (bech32 also accepts the all-upper-case form): the slot holds
+	// what the owner wrote; accepting, re-accepting and acting afterwards are tried in both spellings
+	if rc.Shard == 3%rc.NShards {
+		for v := 0; v < 4; v++ {
+			e, err := StdEngine(rc, false, false, nil)
+			if err != nil {
+				continue
+			}
+			e.LightQueries = true
+			x := Acct(OtherIx)
+			up := strings.ToUpper(x)
+			named, first, second := up, x, up
+			if v%2 == 1 {
+				named, first, second = x, up, x
+			}
+			seq := []sdk.Msg{
+				&ct.MsgUpdateOwner{From: e.M.Owner, NewOwner: named},
+				&ct.MsgAcceptOwner{From: first},
+				&ct.MsgAcceptOwner{From: first},
+				&ct.MsgAcceptOwner{From: second},
+				&ct.MsgAcceptOwner{From: second},
+				&ct.MsgAcceptOwner{From: first},
+				&ct.MsgUpdatePauser{From: first, NewPauser: Acct(UserIx)},
+				&ct.MsgUpdatePauser{From: second, NewPauser: Acct(UserIx)},
+			}
+			if v >= 2 { // the same with a role instead of the ownership
+				seq = []sdk.Msg{
+					&ct.MsgUpdatePauser{From: e.M.Owner, NewPauser: named},
+					&ct.MsgPauseBurningAndMinting{From: first},
+					&ct.MsgUnpauseBurningAndMinting{From: second},
+					&ct.MsgPauseBurningAndMinting{From: second},
+					&ct.MsgUpdateAttesterManager{From: e.M.Owner, NewAttesterManager: named},
+					&ct.MsgUpdateSignatureThreshold{From: first, Amount: 1},
+					&ct.MsgUpdateSignatureThreshold{From: second, Amount: 2},
+				}
+			}
+			for _, m := range seq {
+				r := e.Exec(Tx{Msgs: msgs1(m), Note: "C11 nominee / holder named in another spelling of its address"})
+				rc.Cov.Cell("C11_transitions", fmt.Sprintf("other-spelling/v%d/%s/%s", v, shapeMsg(m), okWord(r.OK)))
+			}
+			if _, _, _, err := e.ExportImport(); err != nil {
+				rc.Cov.Inconclusive("export/import: " + err.Error())
+			}
+		}
+	}
 	// role transactions submitted by keyless module accounts and remarkable addresses, with and without a pending owner
 	if rc.Shard == 2%rc.NShards {
 		for pend := 0; pend < 2; pend++ {
